@@ -315,59 +315,30 @@ Section cyg.
   Qed.
 End cyg.
 
-(* ---------------------------------------------------------------- the push-only-on-accept shape (-pg, fentry, PLT) *)
-Definition safe_trig (tr : trig) : Prop :=
-  t_time tr = None /\ t_size tr = None /\ (forall d, t_depth tr = Some d -> 0 < d).
-(* no trigger can change the filter state of a call that is then rejected *)
-Definition safe_pg (c : cfg) : Prop := shp c = PG /\ 0 < gdepth c /\ forall a, safe_trig (trig_of c a).
-
-Lemma entry_check_pg c s0 a : safe_pg c -> 0 < max_depth (fc s0) ->
-  let '(s, v, tr, sv) := entry_check c s0 a in
-  (v <> V_IN -> fc s = fc s0) /\ (v = V_IN -> 0 < max_depth (fc s)).
-Proof.
-  intros (_ & Hg & Hs) Hm. specialize (Hs a). unfold entry_check.
-  pose proof (check_rstack_eqw c s0) as (F & _).
-  destruct (check_rstack c s0) as [s over]. cbn [fst] in F.
-  destruct over; [split; [auto|discriminate]|]. rewrite F.
-  destruct (out_count (fc s0) >? 0)%Z; [split; [auto|discriminate]|].
-  destruct (trig_of c a) as [tf td tt tz ton toff ttr tcl]. destruct Hs as (Ht & Hz & Hd). cbn in Ht, Hz, Hd.
-  subst tt tz. cbn [t_filter t_depth t_time t_size t_trace_on t_trace_off]. unfold with_fc.
-  assert (Hmax0 : 0 < (if max_depth (fc s0) =? FILTER_NO_MAX_DEPTH then gdepth c else max_depth (fc s0)))
-    by (destruct (max_depth (fc s0) =? FILTER_NO_MAX_DEPTH); assumption).
-  destruct tf as [[|]|], td as [dv|]; cbn [in_count out_count depth max_depth ftime fsize fc];
-    try (assert (0 < dv) by (apply Hd; reflexivity));
-    repeat match goal with
-           | |- context [if ?b then _ else _] => destruct b eqn:?
-           end; cbn [fc max_depth]; split; intro HH; try discriminate; try congruence; try lia;
-    try (exfalso; match goal with E : (_ <=? 0) = true |- _ => apply N.leb_le in E; lia end);
-    try (destruct (fc s0); reflexivity).
-Qed.
-
+(* ---------------------------------------------------------------- the push-only-on-accept shape (-pg, fentry) *)
 Section pg.
   Variable c : cfg.
-  Hypothesis Hsafe : safe_pg c.
+  Hypothesis Hshape : shp c = PG.
 
-  Lemma shp_pg : shp c = PG. Proof. destruct Hsafe; assumption. Qed.
-
-  Theorem restored_pg : forall k s hk, 0 < max_depth (fc s) ->
+  (* since mcount_entry_filter_undo: EVERY configuration, like the always-push shape *)
+  Theorem restored_pg : forall k s hk,
     exists s', exec c (flat k) (s, hk) = (s', hk) /\
                fc s' = fc s /\ ridx s' = ridx s /\ eqw (stack s') (stack s).
   Proof.
-    induction k as [a t0 t1 kids IH] using call_ind'. intros s hk Hm.
-    assert (RK : forall s hk, 0 < max_depth (fc s) ->
+    induction k as [a t0 t1 kids IH] using call_ind'. intros s hk.
+    assert (RK : forall s hk,
                  exists s', exec c (flat_map flat kids) (s, hk) = (s', hk) /\
                             fc s' = fc s /\ ridx s' = ridx s /\ eqw (stack s') (stack s)).
-    { clear s hk Hm. induction IH as [|k r Hk _ IHr]; intros s hk Hm.
+    { clear s hk. induction IH as [|k r Hk _ IHr]; intros s hk.
       - exists s. repeat split; reflexivity.
-      - destruct (Hk s hk Hm) as (s1 & E1 & F1 & R1 & W1).
-        destruct (IHr s1 hk) as (s2 & E2 & F2 & R2 & W2); [rewrite F1; exact Hm|].
+      - destruct (Hk s hk) as (s1 & E1 & F1 & R1 & W1).
+        destruct (IHr s1 hk) as (s2 & E2 & F2 & R2 & W2).
         exists s2. cbn [flat_map]. unfold exec in *. rewrite fold_left_app, E1, E2.
         repeat split; [congruence|congruence|eapply eqw_trans; eassumption]. }
     cbn [flat]. unfold exec. cbn [fold_left dstep]. rewrite fold_left_app. cbn [fold_left].
-    unfold hooked, do_enter. rewrite shp_pg.
+    unfold hooked, do_enter. rewrite Hshape.
     pose proof (entry_check_facts c s a) as H.
-    pose proof (entry_check_pg c s a Hsafe Hm) as HP.
-    destruct (entry_check c s a) as [[[s1 v] tr] sv]. destruct H as (E & R & HR & HN). destruct HP as [HP1 HP2].
+    destruct (entry_check c s a) as [[[s1 v] tr] sv]. destruct H as (E & R & HR & HN).
     destruct v.
     - (* accepted: frame pushed, exit hook runs *)
       destruct HN as (Hsv & Hin & Hout); [discriminate|]. subst sv.
@@ -376,7 +347,6 @@ Section pg.
           as (top & rest & S1 & E1 & G1 & F1 & Fl & Nt & D1 & M1 & T1 & Z1 & R1);
         set (s1' := entry_record c s1 fr tr (d0, m0, t0', z0)) in * end.
       destruct (RK s1' (true :: hk)) as (s2 & E2 & F2 & R2 & W2).
-      { rewrite F1. apply HP2. reflexivity. }
       unfold exec in E2. rewrite E2. cbn [dstep].
       unfold do_leave. rewrite S1 in W2.
       destruct (stack s2) as [|top2 rest2] eqn:S2; [discriminate|].
@@ -386,7 +356,7 @@ Section pg.
       assert (Er : eqw rest2 rest) by (apply (f_equal (@tl _)) in W2; exact W2).
       assert (Gh : f_ghost top2 = false).
       { assert (f_ghost (clear_written top2) = f_ghost top2) as <- by reflexivity. rewrite Et. exact G1. }
-      rewrite Gh, shp_pg.
+      rewrite Gh, Hshape.
       eexists. split; [reflexivity|].
       apply (exit_record_restores c s s2 top);
         [ apply cw_set_end_congr; exact Et
@@ -396,66 +366,58 @@ Section pg.
         | exact D1 | exact M1 | exact T1 | exact Z1
         | rewrite R2; exact R1
         | eapply eqw_trans; eassumption ].
-    - (* rejected by a filter: nothing pushed, nothing to restore *)
-      destruct (RK s1 (false :: hk)) as (s2 & E2 & F2 & R2 & W2).
-      { rewrite HP1 by discriminate. exact Hm. }
+    - (* rejected by a filter: nothing pushed, and what the trigger changed is undone *)
+      match goal with |- context [fold_left _ _ (?st, _)] => set (s1' := st) end.
+      destruct (RK s1' (false :: hk)) as (s2 & E2 & F2 & R2 & W2).
       unfold exec in E2. rewrite E2. cbn [dstep].
-      exists s2. split; [reflexivity|]. rewrite F2, R2, HP1 by discriminate.
+      exists s2. split; [reflexivity|]. rewrite F2, R2. subst s1'. cbn [fc ridx stack] in *.
       repeat split; [assumption|eapply eqw_trans; eassumption].
-    - destruct (RK s1 (false :: hk)) as (s2 & E2 & F2 & R2 & W2).
-      { rewrite HP1 by discriminate. exact Hm. }
+    - (* beyond the stack limit: nothing changed *)
+      destruct (RK s1 (false :: hk)) as (s2 & E2 & F2 & R2 & W2).
       unfold exec in E2. rewrite E2. cbn [dstep].
-      exists s2. split; [reflexivity|]. rewrite F2, R2, HP1 by discriminate.
+      exists s2. split; [reflexivity|]. rewrite F2, R2, HR by reflexivity.
       repeat split; [assumption|eapply eqw_trans; eassumption].
   Qed.
 End pg.
 
-(* ---------------------------------------------------------------- the defect: state leaks on the -pg shape *)
+(* ---------------------------------------------------------------- the code as found: state leaked on the -pg shape *)
 (* `-D 1 -T b@time=1000`: main (f0) calls b (f1); b is rejected by the depth limit AFTER its time=
-   trigger changed the threshold; nothing restores it, so main's own exit is judged against b's
-   threshold and main disappears from the trace. *)
+   trigger changed the threshold; nothing restored it, so main's own exit was judged against b's
+   threshold and main disappeared from the trace. *)
 Definition leak_cfg : cfg :=
   mkcfg [(1, {| t_filter := None; t_depth := None; t_time := Some 1000; t_size := None;
                 t_trace_on := false; t_trace_off := false; t_trace := false; t_caller := false |})]
         false false 1 0 1024 [] PG.
-Definition leak_run := exec leak_cfg [Enter 0 100; Enter 1 110; Leave 120; Leave 200] (init, []).
+Definition leak_events : list ev := [Enter 0 100; Enter 1 110; Leave 120; Leave 200].
 Definition cyg_of (c : cfg) : cfg :=
   {| trig_of := trig_of c; fmode_in := fmode_in c; has_caller := has_caller c; gdepth := gdepth c;
      threshold := threshold c; max_stack := max_stack c; sym_size := sym_size c; shp := CYG |}.
 
-Lemma pg_leak_refuted :
-  (* after b's entry was rejected the filter state differs from the state before the call *)
-  ftime (fc (fst (exec leak_cfg [Enter 0 100; Enter 1 110; Leave 120] (init, [])))) <>
-  ftime (fc (fst (exec leak_cfg [Enter 0 100] (init, [])))) /\
-  (* and the recorded result depends on the instrumentation method *)
-  out (fst leak_run) = [] /\
-  out (fst (exec (cyg_of leak_cfg) [Enter 0 100; Enter 1 110; Leave 120; Leave 200] (init, []))) <> [].
+Lemma pg_leak_legacy_refuted :
+  (* legacy: after b's entry was rejected the filter state differed from the state before the call ... *)
+  ftime (fc (fst (exec_legacy leak_cfg [Enter 0 100; Enter 1 110; Leave 120] (init, [])))) <>
+  ftime (fc (fst (exec_legacy leak_cfg [Enter 0 100] (init, [])))) /\
+  (* ... and the recorded result depended on the instrumentation method *)
+  out (fst (exec_legacy leak_cfg leak_events (init, []))) = [] /\
+  out (fst (exec (cyg_of leak_cfg) leak_events (init, []))) <> [] /\
+  (* repaired: both shapes record the same two records *)
+  out (fst (exec leak_cfg leak_events (init, []))) = out (fst (exec (cyg_of leak_cfg) leak_events (init, []))).
 Proof. vm_compute. repeat split; congruence. Qed.
 
-(* `-T b@depth=0`: a later sibling c() in the same parent disappears *)
+(* `-T b@depth=0`: a later sibling c() in the same parent disappeared *)
 Definition leak2_cfg : cfg :=
   mkcfg [(1, {| t_filter := None; t_depth := Some 0; t_time := None; t_size := None;
                 t_trace_on := false; t_trace_off := false; t_trace := false; t_caller := false |})]
         false false 1024 0 1024 [] PG.
-Lemma pg_leak2_refuted :
+Lemma pg_leak2_legacy_refuted :
   let es := [Enter 0 100; Enter 1 110; Leave 120; Enter 2 130; Leave 140; Leave 200] in
-  length (out (fst (exec leak2_cfg es (init, [])))) = 2%nat /\
+  length (out (fst (exec_legacy leak2_cfg es (init, [])))) = 2%nat /\
+  length (out (fst (exec leak2_cfg es (init, [])))) = 4%nat /\
   length (out (fst (exec (cyg_of leak2_cfg) es (init, [])))) = 4%nat.
-Proof. vm_compute. split; reflexivity. Qed.
+Proof. vm_compute. repeat split; reflexivity. Qed.
 
 Lemma method_independent thr gd ms f : all_timed f -> heights f <= ms ->
   out (fst (exec (plain thr gd ms PG) (flat_forest f) (init, []))) =
   out (fst (exec (plain thr gd ms CYG) (flat_forest f) (init, []))).
 Proof. intros. rewrite !UV.Mcount.PlainProofs.run_forest by assumption. reflexivity. Qed.
 
-Lemma safe_pg_example :
-  safe_pg (mkcfg [(1, {| t_filter := Some true; t_depth := None; t_time := None; t_size := None;
-                         t_trace_on := false; t_trace_off := false; t_trace := false; t_caller := false |});
-                  (2, {| t_filter := Some false; t_depth := Some 2; t_time := None; t_size := None;
-                         t_trace_on := false; t_trace_off := false; t_trace := true; t_caller := false |})]
-                 true false 3 10 1024 [] PG).
-Proof.
-  split; [reflexivity|]. split; [reflexivity|]. intro a. unfold mkcfg. cbn [trig_of].
-  unfold safe_trig, assoc. destruct (a =? 1); [cbn; repeat split; intros; discriminate|].
-  destruct (a =? 2); cbn; repeat split; intros d H; try discriminate. injection H as <-. reflexivity.
-Qed.
